@@ -193,7 +193,8 @@ Proof.
   intros Hin H. destruct n as [s|s e|i src|width elems|k e|k e|k e]; cbn [resolve_node] in H.
   - destruct (address_at pos (negb last)) as [a|]; [|discriminate]. inversion H; subst.
     apply frame_sym. eapply in_ids_label; eauto.
-  - destruct (eval code_ops _ e []) as [[v c]|]; [|discriminate]. inversion H; subst.
+  - destruct (eval code_ops _ e []) as [[v c]|]; [|discriminate].
+    destruct (last && match v with VFailed => true | _ => false end); [discriminate|]. inversion H; subst.
     apply frame_sym. eapply in_ids_const; eauto.
   - destruct (nth_error (s_instr st) i) as [d|] eqn:Hd; [|discriminate].
     destruct (resolve_encoding defs _ (negb last) (i_matches d)) as [chosen|]; [|discriminate].
@@ -551,8 +552,19 @@ Lemma const_at ns1 s e ns2 : ns = ns1 ++ NConst s e :: ns2 ->
 Proof.
   intro E. destruct (cert_at _ _ _ E) as [p' H]. cbn [resolve_node] in H. cbn [negb] in H.
   destruct (eval code_ops _ e []) as [[v c]|]; [|discriminate].
+  destruct (true && match v with VFailed => true | _ => false end); [discriminate|].
   destruct (value_identical v (nth s (s_sym st) VUnknown)) eqn:Q; [|discriminate].
   apply value_identical_eq in Q. eauto.
+Qed.
+
+(* a certified state holds no failed constraint in a constant (the final pass rejects it) *)
+Lemma const_not_failed ns1 s e ns2 : ns = ns1 ++ NConst s e :: ns2 -> nth s (s_sym st) VUnknown <> VFailed.
+Proof.
+  intro E. destruct (cert_at _ _ _ E) as [p' H]. cbn [resolve_node] in H. cbn [negb] in H.
+  destruct (eval code_ops _ e []) as [[v c]|]; [|discriminate].
+  destruct v; cbn [andb] in H; try discriminate;
+    (destruct (value_identical _ (nth s (s_sym st) VUnknown)) eqn:Q; [|discriminate];
+     apply value_identical_eq in Q; rewrite <- Q; discriminate).
 Qed.
 
 (* ---------- size agreement and the cursor ---------- *)
